@@ -1,6 +1,7 @@
 """A context where other parts share global state."""
 
 import logging
+import math
 import struct
 from ...common import CompilerError
 from ...arch.arch_info import Endianness
@@ -300,6 +301,12 @@ class CContext:
             # modulo 2^N (C11 6.3.1.3, implementation defined when signed).
             bits = 8 * struct.calcsize(fmt)
             value = c_wrap(value, bits, fmt[-1].islower())
+        if fmt[-1] == "f" and isinstance(value, (int, float)):
+            try:
+                return struct.pack(fmt, value)
+            except OverflowError:
+                # Finite, but beyond the range of float: becomes infinity
+                value = math.copysign(math.inf, value)
         return struct.pack(fmt, value)
 
     def _make_ival(self, typ, ival):
